@@ -425,6 +425,33 @@ func (p *Program) VerifyFunc(c *Contract) (res *FuncResult) {
 			po := mk(fmt.Sprintf("cover.post.%d", i+1), en.Tags, "sat", "the case of the postcondition is reachable: "+exprString(ce.Args[0]), Or(calts...))
 			po.Probe = true
 		}
+		if len(c.CasesPost) > 0 {
+			// casesplitpost E1 | E2 | ...: like casesplit, with the cases evaluated in the exit state (e.g. by the length
+			// of the result); one obligation per case and one for "none of them"
+			nc := len(c.CasesPost)
+			perCase := make([][]*Term, nc+1)
+			for _, e := range normal {
+				penv := ex.postEnv(env, e, fn)
+				penv.bindLets(c, true)
+				t := penv.termBool(en.Expr)
+				var lem []*Term
+				for _, a := range c.AssumePost {
+					lem = append(lem, penv.termBool(a.Expr))
+				}
+				var cts []*Term
+				for k, cc := range c.CasesPost {
+					ct := penv.termBool(cc.Expr)
+					cts = append(cts, ct)
+					perCase[k+1] = append(perCase[k+1], And(pcOf(e), And(lem...), ct, Not(t)))
+				}
+				perCase[0] = append(perCase[0], And(pcOf(e), And(lem...), Not(Or(cts...)), Not(t)))
+			}
+			for k := 1; k <= nc; k++ {
+				mk(fmt.Sprintf("post.%d.c%d", i+1, k), en.Tags, "unsat", "ensures "+en.Src+" [case "+c.CasesPost[k-1].Src+"]", Or(perCase[k]...))
+			}
+			mk(fmt.Sprintf("post.%d.c0", i+1), en.Tags, "unsat", "ensures "+en.Src+" [no listed case]", Or(perCase[0]...))
+			continue
+		}
 		if len(c.Cases) > 0 {
 			var cs []*Term
 			for _, cc := range c.Cases {
